@@ -16,10 +16,10 @@ type Case struct {
 	Kind         string   `json:"kind"` // generator class (label only; the check recomputes what matters)
 	Services     []string `json:"services"`
 	Nameless     *int     `json:"nameless,omitempty"` // index of the service whose resources carry no service.name (its name is ""); nil: none
-	Spans        []*Span  `json:"spans"`      // in ingestion order
-	Batches      []int    `json:"batches"`    // sizes of the OTLP export requests (sum = len(Spans))
-	FlushAfter   []bool   `json:"flushAfter"` // flush after batch i (the last batch is always flushed)
-	Rotate       bool     `json:"rotate"`     // rotate the segment after the last flush
+	Spans        []*Span  `json:"spans"`              // in ingestion order
+	Batches      []int    `json:"batches"`            // sizes of the OTLP export requests (sum = len(Spans))
+	FlushAfter   []bool   `json:"flushAfter"`         // flush after batch i (the last batch is always flushed)
+	Rotate       bool     `json:"rotate"`             // rotate the segment after the last flush
 	WindowBackMs int64    `json:"windowBackMs"`
 	WindowFwdMs  int64    `json:"windowFwdMs"`
 	GanttMax     int      `json:"ganttMax"`  // number of traces whose span tree is requested
@@ -328,7 +328,14 @@ func genCase(t *rapid.T) *Case {
 		pool = append(append([]string(nil), oddServices...), plainServices[:3]...)
 	}
 	perm := rapid.Permutation(pool).Draw(t, "svcPerm")
-	cs.Services = perm[:nsvc]
+	cs.Services = append([]string(nil), perm[:nsvc]...)
+	// a quarter of the cases: one of the services sends resources without a service.name attribute
+	// (no Resource message / empty attribute list / other attributes only); its name is "".
+	if uniformCase(t, "nameless", 4) == 3 {
+		nl := rapid.IntRange(0, nsvc-1).Draw(t, "namelessIdx")
+		cs.Services[nl] = ""
+		cs.Nameless = &nl
+	}
 
 	// ---- window ---------------------------------------------------------------------------
 	cs.WindowBackMs = rapid.SampledFrom([]int64{15 * 60000, 3600000, 3600000, 3 * 3600000, 24 * 3600000}).Draw(t, "windowBack")
